@@ -192,6 +192,78 @@ func clock() string {
 	return fmt.Sprint(d >= 0, time.Until(t0) <= 0)
 }
 
+type flight struct {
+	sync.WaitGroup
+	val int
+}
+
+func selectsAndGroups() string {
+	var wg sync.WaitGroup
+	pw := &sync.WaitGroup{}
+	fl := &flight{}
+	out := make(chan int, 8)
+	quit := make(chan struct{})
+	for i := 0; i < 3; i++ {
+		wg.Add(1)
+		pw.Add(1)
+		go func(i int) {
+			defer wg.Done()
+			defer pw.Done()
+			out <- i
+		}(i)
+	}
+	fl.Add(1)
+	go func() { fl.val = 9; fl.Done() }()
+	wg.Wait()
+	pw.Wait()
+	fl.Wait()
+	close(out)
+	sum, loops := fl.val, 0
+outer:
+	for {
+		loops++
+	sel:
+		select {
+		case v, ok := <-out:
+			if !ok {
+				close(quit)
+				out = nil
+				continue outer
+			}
+			if v == 1 {
+				break sel
+			}
+			if v == 2 {
+				break
+			}
+			sum += 10
+		case <-quit:
+			break outer
+		}
+		sum += 100
+	}
+	feed := make(chan int, 3)
+	var ro <-chan int = feed
+	feed <- 1
+	feed <- 2
+	close(feed)
+	for v := range ro {
+		sum += v
+	}
+	for range feed {
+		sum += 1000
+	}
+	var s string
+	tick := time.NewTimer(time.Millisecond)
+	select {
+	case <-tick.C:
+		s = "tick"
+	case <-make(chan int):
+		s = "never"
+	}
+	return fmt.Sprint(sum, loops, s)
+}
+
 func seq(yield func(int) bool) {
 	for i := 0; i < 3; i++ {
 		if !yield(i) {
@@ -211,6 +283,7 @@ func main() {
 	fmt.Println(channels())
 	fmt.Println(clock())
 	fmt.Println(condDemo())
+	fmt.Println(selectsAndGroups())
 	close(func() chan int { c := make(chan int); return c }())
 	total := 0
 	for v := range seq {
